@@ -375,20 +375,7 @@ func checkC02(c *Ctx) {
 			r.Unk("C02.4", "tryFindReg: success return", f.Pos(), fnName(f), "not found")
 		}
 	}
-	if f := c.fn("C02.4", "pkg/transports/wrapping/prefix", "Transport", "getReg"); f != nil {
-		okk := false
-		eachInstr(f, func(in ssa.Instruction) {
-			if ret, ok := in.(*ssa.Return); ok && len(ret.Results) == 2 {
-				if cst, isC := ret.Results[1].(*ssa.Const); isC && cst.Value == nil {
-					rp := pathOf(ret.Results[0])
-					if strings.Contains(rp, P(f, 2)+".GetRegistrations("+P(f, 3)+")[string("+P(f, 0)+".TagObfuscator.TryReveal("+P(f, 1)+", ") && guarded(f, ret, Atom{strings.TrimSuffix(rp, "#0") + "#1", true}) {
-						okk = true
-					}
-				}
-			}
-		})
-		r.Check(okk, "C02.4", "prefix getReg: registration looked up under the tag revealed with a station key, only if found", f.Pos(), fnName(f), "map element under string(TryReveal(obfuscatedID, privkey))", "the prefix transport's lookup key is not the revealed tag (or the found test is missing)")
-	}
+	checkPrefixLookupKey(c, "C02.4")
 
 	// ---- C02.5 single writer of Valid
 	r.Rule("C02.5", "Valid is set true only by register and false only when tracking", 2)
@@ -678,4 +665,25 @@ func carries(v, src ssa.Value, depth int) bool {
 		}
 	}
 	return false
+}
+
+// checkPrefixLookupKey: the prefix transport finds its registration under the identifier revealed from the WHOLE tag of
+// this connection with a station key (shared by C02.4 and C03.11: a remembered answer for part of the tag identifies
+// peers that never presented a valid tag).
+func checkPrefixLookupKey(c *Ctx, rule string) {
+	r := c.R
+	if f := c.fn(rule, "pkg/transports/wrapping/prefix", "Transport", "getReg"); f != nil {
+		okk := false
+		eachInstr(f, func(in ssa.Instruction) {
+			if ret, ok := in.(*ssa.Return); ok && len(ret.Results) == 2 {
+				if cst, isC := ret.Results[1].(*ssa.Const); isC && cst.Value == nil {
+					rp := pathOf(ret.Results[0])
+					if strings.Contains(rp, P(f, 2)+".GetRegistrations("+P(f, 3)+")[string("+P(f, 0)+".TagObfuscator.TryReveal("+P(f, 1)+", ") && guarded(f, ret, Atom{strings.TrimSuffix(rp, "#0") + "#1", true}) {
+						okk = true
+					}
+				}
+			}
+		})
+		r.Check(okk, rule, "prefix getReg: registration looked up under the tag revealed with a station key, only if found", f.Pos(), fnName(f), "map element under string(TryReveal(obfuscatedID, privkey))", "the prefix transport's lookup key is not the revealed tag (or the found test is missing)")
+	}
 }
